@@ -382,3 +382,128 @@ func ruleSIBLINGBOUNDARY(c *Ctx) {
 		c.add(rule, "count:", token.NoPos, CountDropped, true, "only %d generated ast builders found", n)
 	}
 }
+
+// FIELDCOV(rebuild): when a record is rebuilt from another record of the same type — a composite
+// literal in which at least one field is copied from the same field of a value of that type —
+// every field of the type has to be given (copied or recomputed). A field that is left out
+// silently takes its zero value (Instantiate rebuilding syntax.Input without NoEoi turns a
+// no-eoi input into an eoi input for every grammar that has template parameters).
+func ruleREBUILD(c *Ctx, pkgs ...string) {
+	const rule = "FIELDCOV(rebuild)"
+	n := 0
+	for _, rel := range pkgs {
+		for _, f := range c.SrcFuncs(rel) {
+			ord := map[string]int{}
+			for _, b := range f.Blocks {
+				for _, ins := range b.Instrs {
+					al, ok := ins.(*ssa.Alloc)
+					if !ok {
+						continue
+					}
+					nt, ok := al.Type().(*types.Pointer).Elem().(*types.Named)
+					if !ok {
+						continue
+					}
+					stt, ok := nt.Underlying().(*types.Struct)
+					if !ok || stt.NumFields() < 2 || stt.NumFields() > 6 {
+						continue
+					}
+					plain := true
+					for i := 0; i < stt.NumFields(); i++ {
+						if _, isBasic := stt.Field(i).Type().Underlying().(*types.Basic); !isBasic {
+							plain = false
+						}
+					}
+					if !plain {
+						continue // records with pointers/slices are built incrementally all over the place
+					}
+					set := map[string]bool{}
+					copied := 0
+					for _, ref := range *al.Referrers() {
+						fa, ok := ref.(*ssa.FieldAddr)
+						if !ok {
+							continue
+						}
+						for _, r2 := range *fa.Referrers() {
+							st, ok := r2.(*ssa.Store)
+							if !ok || st.Addr != ssa.Value(fa) {
+								continue
+							}
+							fname := stt.Field(fa.Field).Name()
+							set[fname] = true
+							// copied from the same field of another value of the same type?
+							switch y := st.Val.(type) {
+							case *ssa.Field:
+								if types.Identical(y.X.Type(), nt) && y.Field == fa.Field {
+									copied++
+								}
+							case *ssa.UnOp:
+								if fa2, ok := y.X.(*ssa.FieldAddr); ok && fa2.Field == fa.Field && fa2.X != ssa.Value(al) {
+									if p, ok := fa2.X.Type().Underlying().(*types.Pointer); ok && types.Identical(p.Elem(), nt) {
+										copied++
+									}
+								}
+							}
+						}
+					}
+					if copied == 0 || len(set) == 0 {
+						continue
+					}
+					n++
+					key := ordKey(ord, ssaFuncKey(f)+":"+nt.Obj().Name())
+					var missing []string
+					for i := 0; i < stt.NumFields(); i++ {
+						if !set[stt.Field(i).Name()] {
+							missing = append(missing, stt.Field(i).Name())
+						}
+					}
+					if len(missing) == 0 {
+						c.Ok(rule, key, al.Pos(), "the rebuilt %s gives all %d fields", nt.Obj().Name(), stt.NumFields())
+					} else {
+						c.Bad(rule, key, al.Pos(), "a %s is rebuilt from another %s (%d field(s) copied) but %s is left out and becomes the zero value", nt.Obj().Name(), nt.Obj().Name(), copied, strings.Join(missing, ", "))
+					}
+				}
+			}
+		}
+	}
+	if n < 1 {
+		c.add(rule, "count:", token.NoPos, CountDropped, true, "no rebuilt record found in %v (syntax.Instantiate's Input literal confirmed by hand)", pkgs)
+	}
+}
+
+// CONSISTENT(scope-map): compiler.(*syntaxLoader).pushName makes alias names unique across the
+// whole top-level rule by probing name, name#0, name#1, ... All probes that take part in that
+// decision must consult the same map (the top-level rule's names); probing the nested rule's own
+// map in one of them lets a third occurrence inside a parenthesised group overwrite name#1.
+func ruleSCOPEMAP(c *Ctx) {
+	const rule = "CONSISTENT(scope-map)"
+	f := c.SSAFunc("compiler", "(*syntaxLoader).pushName")
+	key := "compiler.syntaxLoader.pushName:probes"
+	if f == nil {
+		c.Lost(rule, key, "function not found")
+		return
+	}
+	var maps []ssa.Value
+	for _, b := range f.Blocks {
+		for _, ins := range b.Instrs {
+			if lk, ok := ins.(*ssa.Lookup); ok && lk.CommaOk {
+				maps = append(maps, lk.X)
+			}
+		}
+	}
+	if len(maps) < 3 {
+		c.Lost(rule, key, "only %d existence probes found in pushName (3 confirmed by hand)", len(maps))
+		return
+	}
+	same := true
+	for _, m := range maps[1:] {
+		if m != maps[0] {
+			same = false
+		}
+	}
+	if same {
+		c.Ok(rule, key, f.Pos(), "all %d existence probes consult the same (top-level) name map", len(maps))
+	} else {
+		c.Bad(rule, key, f.Pos(), "the existence probes of pushName consult different maps: the free #N suffix is searched in one scope and claimed in another, so an alias inside a nested group can overwrite name#N of the enclosing rule")
+	}
+}
